@@ -312,6 +312,24 @@ func runC20One(c C20Case) string {
 	if len(bytes.TrimSpace(r.errReport)) != 0 {
 		return "valid input but the error report is not empty" + desc()
 	}
+	unknown := false
+	for _, v := range vals {
+		v.Walk(func(x model.Value) {
+			for _, a := range x.Ann {
+				unknown = unknown || !a.Known
+			}
+			for _, f := range x.Fields {
+				unknown = unknown || !f.Name.Known
+			}
+			unknown = unknown || (x.Kind == model.Symbol && !x.IsNull && !x.Sym.Known)
+		})
+	}
+	if unknown {
+		// a symbol of unknown text may be $0 or point at an undefined slot, which
+		// ion-go reads as the text "" by design (DESIGN 13.3): values are not judged
+		st.Discard("valid input with a symbol of unknown text: judged for no-crash only")
+		return ""
+	}
 	switch c.Format {
 	case "none":
 		if len(r.out) != 0 {
